@@ -160,7 +160,10 @@ Definition check_node (p : string * json) : bool :=
                     (if keepsb ref b nref then presult_eqb (nbase cwd (strip_frag nref)) (nbase cwd (strip_frag b)) else true)
                     && check_txt ref r nref (render_kept OP ctx_base s0 nref)
                     && check_txt ref r nref (render_rebased ctx_base s0 nref)
-                    && match sem_target E docs cwd ref b with Some (b', t) => gmem b' t | None => true end
+                    && match sem_target E docs cwd ref b with
+                       | Some (b', t) => match t with JObj _ => gmem b' t | _ => false end   (* a target is an object *)
+                       | None => true
+                       end
                 | _ => false
                 end
             | _ => true
@@ -211,7 +214,16 @@ Proof.
   apply andb_true_iff in H. destruct H as [_ H]. rewrite Hr in H.
   destruct (nuri (get_str "$ref" m) b) as [nref| |] eqn:En; try (unfold sem_target in Ht; rewrite En in Ht; destruct (new_ref (s2l (get_str "$ref" m))); discriminate).
   destruct (new_ref (s2l (get_str "$ref" m))) as [r| |]; try discriminate.
-  apply andb_true_iff in H. destruct H as [_ H]. rewrite Ht in H. apply gmem_GN. exact H.
+  apply andb_true_iff in H. destruct H as [_ H]. rewrite Ht in H. destruct t; try discriminate. apply gmem_GN. exact H.
+Qed.
+
+Lemma GN_target_obj b m b' t : GN b (JObj m) -> has_ref m = true -> sem_target E docs cwd (get_str "$ref" m) b = Some (b', t) -> exists mm, t = JObj mm.
+Proof.
+  intros Hg Hr Ht. pose proof (check_nodes_node b m Hck Hg) as H. unfold check_node in H. cbn [fst snd] in H.
+  apply andb_true_iff in H. destruct H as [_ H]. rewrite Hr in H.
+  destruct (nuri (get_str "$ref" m) b) as [nref| |] eqn:En; try (unfold sem_target in Ht; rewrite En in Ht; destruct (new_ref (s2l (get_str "$ref" m))); discriminate).
+  destruct (new_ref (s2l (get_str "$ref" m))) as [r| |]; try discriminate.
+  apply andb_true_iff in H. destruct H as [_ H]. rewrite Ht in H. destruct t; try discriminate. eexists; reflexivity.
 Qed.
 
 Lemma GN_same b m nref : GN b (JObj m) -> has_ref m = true -> nuri (get_str "$ref" m) b = POk nref ->
